@@ -3147,14 +3147,18 @@ def subrun(
     if not parent_job.recording_provenance():
         new_execution = True
 
-    # Extract the cache options.
+    # Extract the cache options. Use the usual option precedence (see Job.get_raw_options()):
+    # subrun's own defaults < options exported by the calling job < call-time options. The
+    # defaults must not outrank exported options such as `export_options(cache=False)`, since
+    # they become explicit call-time options of _subrun_root_task below.
+    cache_options = {
+        **subrun.get_task_options(),
+        **parent_job.get_export_options(),
+        **sexpr._options,
+    }
     all_options: dict[str, Any] = {
-        "cache_scope": CacheScope(
-            sexpr._options.get("cache_scope", subrun.get_task_option("cache_scope"))
-        ),
-        "check_valid": CacheCheckValid(
-            sexpr._options.get("check_valid", subrun.get_task_option("check_valid"))
-        ),
+        "cache_scope": CacheScope(cache_options["cache_scope"]),
+        "check_valid": CacheCheckValid(cache_options["check_valid"]),
         "allowed_cache_results": {CacheResult.CSE, CacheResult.ULTIMATE},
     }
     all_options.update(task_options)
